@@ -32,11 +32,16 @@ row("crate::algorithms::div::div", "foreign", "core::option::Option::<T>::expect
 for w in ("assert_eq!#Eq(*left_val,*right_val)", "assert_eq!#Eq(*left_val,*right_val)~2"):
     row("crate::algorithms::mul::addmul_n", "diverge", w,
         "length equality of the three slices; every caller in the crate passes [u64; LIMBS] arrays of one Uint type "
-        "(equal by type); value contract of the kernel itself is C15 (N/A)")
+        "(equal by type); for the kernel itself it is the documented precondition of the equal-length form (C15)")
 row("crate::algorithms::mul::addmul_nx1", "diverge", "debug_unreachable!#switch",
-    "assume!(lhs.len() == a.len()): optimisation hint, callers pass equal-length windows (kernel contract, C15 N/A)")
+    "assume!(lhs.len() == a.len()): optimisation hint, callers pass equal-length windows (documented precondition of the kernel, C15)")
 row("crate::algorithms::mul::submul_nx1", "diverge", "debug_unreachable!#switch",
-    "assume!(lhs.len() == a.len()): optimisation hint, callers pass equal-length windows (kernel contract, C15 N/A)")
+    "assume!(lhs.len() == a.len()): optimisation hint, callers pass equal-length windows (documented precondition of the kernel, C15)")
+for fn_ in ("adc_n", "sbb_n"):
+    row("crate::algorithms::add::%s" % fn_, "assert:BoundsCheck", "BoundsCheck[i]~2",
+        "rhs[i] for i < lhs.len(): the kernel's contract is `lhs += rhs` / `lhs -= rhs` over equal-length windows (rhs at "
+        "least as long as lhs); its only callers are the add-back steps of the Knuth division kernel, which pass "
+        "windows of the divisor's length (C14, N/A). lhs[i] itself is discharged by the interval engine")
 row("crate::algorithms::gcd::matrix::Matrix::from", "diverge", "assert!#partial_cmp",
     "assert!(a >= b): Lehmer loop invariant, discharged by a loop invariant not by dominance (C12 is N/A)")
 for i in range(1, 7):
